@@ -279,6 +279,61 @@ pub fn c12_interleave(ctx: &mut Ctx, path: &str, mask: u64) {
     if n >= 2 { ctx.nontrivial_cur(); }
 }
 
+/// Iterator adaptors with their own specialisations (nth, nth_back, skip, last, count, rev) mixed with
+/// next/next_back, against a deque of the '/'-split.
+pub fn c12_adaptors(ctx: &mut Ctx, path: &str, mask: u64) {
+    let Ok(p) = Path::new(path) else {
+        return;
+    };
+    let (_abs, want) = model::segments(b(path));
+    let mut dq: std::collections::VecDeque<Vec<u8>> = want.iter().map(|x| x.to_vec()).collect();
+    let mut it = p.segments();
+    let mut m = mask;
+    let steps = ((mask >> 56) % 7) as usize;
+    let mut log: Vec<String> = Vec::new();
+    let lossy = |x: &Option<Vec<u8>>| x.as_ref().map(|v| String::from_utf8_lossy(v).to_string());
+    for _ in 0..steps {
+        let op = m & 3;
+        let k = ((m >> 2) & 3) as usize;
+        m >>= 4;
+        let (name, got, exp): (String, Option<Vec<u8>>, Option<Vec<u8>>) = match op {
+            0 => ("next()".into(), it.next().map(|s| s.as_bytes().to_vec()), dq.pop_front()),
+            1 => ("next_back()".into(), it.next_back().map(|s| s.as_bytes().to_vec()), dq.pop_back()),
+            2 => {
+                for _ in 0..k { dq.pop_front(); }
+                (format!("nth({})", k), it.nth(k).map(|s| s.as_bytes().to_vec()), dq.pop_front())
+            }
+            _ => {
+                for _ in 0..k { dq.pop_back(); }
+                (format!("nth_back({})", k), it.nth_back(k).map(|s| s.as_bytes().to_vec()), dq.pop_back())
+            }
+        };
+        ctx.call("segments.adaptor");
+        log.push(name);
+        if got != exp {
+            ctx.fail("C12.iteration", c12_feats("adaptors", b(path)), format!("segments() of {} after {}: library {:?}, deque of the '/'-split {:?}", show(b(path)), log.join("."), lossy(&got), lossy(&exp)));
+            return;
+        }
+    }
+    let rest: Vec<Vec<u8>> = dq.iter().cloned().collect();
+    let k = ((mask >> 52) & 3) as usize;
+    let (name, ok) = match (mask >> 60) & 7 {
+        0 => ("collect()", it.map(|s| s.as_bytes().to_vec()).collect::<Vec<_>>() == rest),
+        1 => ("last()", it.last().map(|s| s.as_bytes().to_vec()) == rest.last().cloned()),
+        2 => ("count()", it.count() == rest.len()),
+        3 => ("rev().collect()", it.rev().map(|s| s.as_bytes().to_vec()).collect::<Vec<_>>() == rest.iter().rev().cloned().collect::<Vec<_>>()),
+        4 => ("skip(k).collect()", it.skip(k).map(|s| s.as_bytes().to_vec()).collect::<Vec<_>>() == rest.iter().skip(k).cloned().collect::<Vec<_>>()),
+        5 => ("step_by(k+1).collect()", it.step_by(k + 1).map(|s| s.as_bytes().to_vec()).collect::<Vec<_>>() == rest.iter().step_by(k + 1).cloned().collect::<Vec<_>>()),
+        6 => ("rev().skip(k).collect()", it.rev().skip(k).map(|s| s.as_bytes().to_vec()).collect::<Vec<_>>() == rest.iter().rev().skip(k).cloned().collect::<Vec<_>>()),
+        _ => ("fold", it.fold(0usize, |a, s| a + s.as_bytes().len() + 1) == rest.iter().map(|s| s.len() + 1).sum::<usize>()),
+    };
+    ctx.call("segments.adaptor");
+    if !ok {
+        ctx.fail("C12.iteration", c12_feats("adaptors", b(path)), format!("segments() of {} after {} then {} (k={}): differs from the deque of the '/'-split (remaining {} segments)", show(b(path)), log.join("."), name, k, rest.len()));
+    }
+    ctx.stratum("adaptors");
+}
+
 pub fn c12_queries(ctx: &mut Ctx, path: &str) {
     let Ok(p) = Path::new(path) else {
         ctx.stratum("skipped:rejected-by-library");
@@ -2482,6 +2537,27 @@ pub fn lockstep(a: &str, bb: &str, ops_text: &str) -> Vec<String> {
             apply_ref_op(&mut buf, &op);
             o.push(format!("after {} {:?}", op.name(), lossy(buf.as_bytes())));
         }
+        // the stand-alone component types: owned path edited directly, components compared and hashed
+        let mut pb: PathBuf = x.path().to_owned();
+        for op in parse_ops(ops_text) {
+            if !op.args_valid() || !op.is_path_op() { continue; }
+            apply_pathbuf_op(&mut pb, &op);
+            o.push(format!("stand-alone path after {} {:?}", op.name(), lossy(pb.as_bytes())));
+        }
+        let mut pn: PathBuf = x.path().to_owned();
+        pn.normalize();
+        o.push(format!("stand-alone normalize {:?} parent {:?} file_name {:?} directory {:?}", lossy(pn.as_bytes()), x.path().parent().map(|p| lossy(p.as_bytes())), x.path().file_name().map(|s| lossy(s.as_bytes())), lossy(x.path().directory().as_bytes())));
+        o.push(format!("path eq {} cmp {:?} hash {}", x.path() == y.path(), x.path().cmp(y.path()), fnv(x.path())));
+        o.push(format!("query eq {} cmp {:?} hash {:?}", x.query() == y.query(), x.query().cmp(&y.query()), x.query().map(|q| fnv(q))));
+        o.push(format!("fragment eq {} cmp {:?} hash {:?}", x.fragment() == y.fragment(), x.fragment().cmp(&y.fragment()), x.fragment().map(|q| fnv(q))));
+        o.push(format!("authority eq {} cmp {:?} hash {:?}", x.authority() == y.authority(), x.authority().cmp(&y.authority()), x.authority().map(|q| fnv(q))));
+        if let (Some(ax), Some(ay)) = (x.authority(), y.authority()) {
+            o.push(format!("host eq {} cmp {:?} hash {} userinfo eq {} port {:?}", ax.host() == ay.host(), ax.host().cmp(ay.host()), fnv(ax.host()), ax.user_info() == ay.user_info(), ax.port().map(|p| lossy(p.as_bytes()))));
+        }
+        for (sx, sy) in x.path().segments().zip(y.path().segments()) {
+            o.push(format!("segment eq {} cmp {:?} hash {}", sx == sy, sx.cmp(sy), fnv(sx)));
+        }
+        o.push(format!("normalized_segments {:?}", x.path().normalized_segments().map(|s| lossy(s.as_bytes())).collect::<Vec<_>>()));
         o
     });
     match r {
